@@ -227,7 +227,7 @@ Proof.
   - intros m p Hin. pose proof (forallb_In _ _ (m, p) Hdoc Hin) as Hd. cbv beta in Hd.
     apply existsb_exists in Hd as [r [_ Hr]].
     apply andb_true_iff in Hr as [Hr Hp]. apply andb_true_iff in Hr as [Hv Hm].
-    apply String.eqb_eq in Hm. apply String.eqb_eq in Hp.
+    apply String.eqb_eq in Hm. apply String.eqb_eq in Hp. cbn [fst snd] in Hm, Hp.
     destruct (count_rows_pos (row_is r) tbl) as [row [Hrow Hris]]; [rewrite Hone; lia|].
     destruct row as [m' p' segs h reg|]; simpl in Hris; [|discriminate].
     apply andb_true_iff in Hris as [Hris Hh]. apply andb_true_iff in Hris as [Hm' Hp'].
